@@ -253,3 +253,209 @@ Proof.
 Qed.
 
 End Structure.
+
+(* ================================================================================================== *)
+(* Part I: the loop as a state machine, and the structural invariant                                   *)
+(* ================================================================================================== *)
+Section Loop.
+Context {L : Type}.
+Variable O : LenOps L.
+Notation arena := (@arena L).
+Notation node := (@node L).
+
+(* weighted average used for the distances of a merged cluster *)
+Definition avg2 (ca cb : nat) (x y : L) : L :=
+  ldiv O (ladd O (lmul O (lofnat O ca) x) (lmul O (lofnat O cb) y)) (ladd O (lofnat O ca) (lofnat O cb)).
+
+(* [Separated Fin]: the values that can occur in live cells (a class [Fin] closed under the update rule)
+   are strictly below the marker [linf O] written into retired cells.  This is the only thing the
+   structural theorems need from the comparison. *)
+Record Separated (Fin : L -> Prop) : Prop := {
+  sep_lt : forall x, Fin x -> lltb O x (linf O) = true;
+  sep_gt : forall x, Fin x -> lltb O (linf O) x = false;
+  sep_avg : forall ca cb x y, 0 < ca -> 0 < cb -> Fin x -> Fin y -> Fin (avg2 ca cb x y) }.
+
+(* ---- cells ------------------------------------------------------------------------------------------ *)
+Definition peq (i j p q : nat) : Prop := (i = p /\ j = q) \/ (i = q /\ j = p).
+
+Lemma cell_sym (cs : list L) i j : cell O cs i j = cell O cs j i.
+Proof. unfold cell. rewrite tril_sym. reflexivity. Qed.
+
+Lemma cell_replace_eq (cs : list L) n p q v :
+  p <> q -> p < n -> q < n -> length cs = n * (n - 1) / 2 ->
+  cell O (replace_at cs (tril_idx p q) v) p q = v.
+Proof.
+  intros Hpq Hp Hq Hlen. unfold cell. apply nth_of_nth_error. apply replace_at_same.
+  rewrite Hlen. apply tril_lt_any; auto.
+Qed.
+
+Lemma cell_replace_neq (cs : list L) p q i j v :
+  i <> j -> p <> q -> ~ peq i j p q ->
+  cell O (replace_at cs (tril_idx p q) v) i j = cell O cs i j.
+Proof.
+  intros Hij Hpq Hne. unfold cell.
+  assert (Hk : tril_idx p q <> tril_idx i j).
+  { intros E. symmetry in E. apply tril_inj_any in E; auto. }
+  pose proof (replace_at_other cs _ _ v Hk) as H.
+  destruct (nth_error cs (tril_idx i j)) as [w|] eqn:E.
+  - rewrite (nth_of_nth_error _ _ _ _ H). symmetry. apply nth_of_nth_error. auto.
+  - apply nth_error_None in E. rewrite !nth_overflow; auto. rewrite replace_at_length. auto.
+Qed.
+
+Definition cells_step (a b ca cb : nat) (merged' : list bool) (cs : list L) (x : nat) : list L :=
+  if nth x merged' true then cs else
+  let cs1 := if negb (Nat.eqb x a) && negb (Nat.eqb b x)
+             then replace_at cs (tril_idx a x) (avg2 ca cb (cell O cs x a) (cell O cs x b))
+             else cs in
+  if negb (Nat.eqb b x) then replace_at cs1 (tril_idx b x) (linf O) else cs1.
+
+Lemma cells_fold_spec n a b ca cb merged' :
+  a < n -> b < n -> a <> b -> nth b merged' true = true ->
+  forall xs cs, NoDup xs -> (forall x, In x xs -> x < n) -> length cs = n * (n - 1) / 2 ->
+  let cs' := fold_left (cells_step a b ca cb merged') xs cs in
+  length cs' = length cs /\
+  (forall x, In x xs -> nth x merged' true = false ->
+     cell O cs' b x = linf O /\
+     (x <> a -> cell O cs' a x = avg2 ca cb (cell O cs x a) (cell O cs x b))) /\
+  (forall i j, i <> j ->
+     (forall x, In x xs -> nth x merged' true = false -> ~ peq i j b x /\ ~ (x <> a /\ peq i j a x)) ->
+     cell O cs' i j = cell O cs i j).
+Proof.
+  intros Ha Hb Hab Hmb xs. induction xs as [|x xs IH] using rev_ind; intros cs Hnd Hlt Hlen; simpl.
+  - splits; auto. intros x [].
+  - apply NoDup_app_iff in Hnd as (Hnd1 & _ & Hdisj).
+    assert (Hx : x < n) by (apply Hlt; apply in_or_app; simpl; auto).
+    assert (Hxn : ~ In x xs) by (intros Hin; eapply Hdisj; eauto; simpl; auto).
+    assert (Hinx : In x (xs ++ [x])) by (apply in_or_app; simpl; auto).
+    destruct (IH cs Hnd1 (fun y Hy => Hlt y (in_or_app _ _ _ (or_introl Hy))) Hlen) as (Il & I1 & I2).
+    rewrite fold_left_app. simpl. set (c1 := fold_left (cells_step a b ca cb merged') xs cs) in *.
+    unfold cells_step at 1 2 3 4. destruct (nth x merged' true) eqn:Hmx.
+    + (* x already merged: nothing happens *)
+      splits; auto.
+      * intros y Hy Hmy. apply in_app_or in Hy as [Hy|[<-|[]]]; [auto|congruence].
+      * intros i j Hij Hno. apply I2; auto. intros y Hy. apply Hno. apply in_or_app; auto.
+    + assert (Hxb : x <> b) by (intros ->; congruence).
+      assert (Ebx : Nat.eqb b x = false) by (apply Nat.eqb_neq; auto).
+      rewrite Ebx. simpl.
+      (* the cells read at time x are still the original ones *)
+      assert (Rxa : x <> a -> cell O c1 x a = cell O cs x a).
+      { intros Hxa. apply I2; auto. intros y Hy Hmy. assert (y <> x) by (intros ->; auto).
+        assert (y <> b) by (intros ->; congruence). unfold peq. lia. }
+      assert (Rxb : cell O c1 x b = cell O cs x b).
+      { apply I2; auto. intros y Hy Hmy. assert (y <> x) by (intros ->; auto).
+        assert (y <> b) by (intros ->; congruence). unfold peq. lia. }
+      destruct (Nat.eqb x a) eqn:Exa; simpl.
+      * apply Nat.eqb_eq in Exa. subst x.
+        splits.
+        -- rewrite replace_at_length. auto.
+        -- intros y Hy Hmy. apply in_app_or in Hy as [Hy|[<-|[]]].
+           ++ assert (y <> a) by (intros ->; auto). assert (y <> b) by (intros ->; congruence).
+              destruct (I1 y Hy Hmy) as [J1 J2].
+              rewrite !cell_replace_neq; auto; unfold peq; try lia; try (split; auto).
+           ++ split; [|congruence]. eapply cell_replace_eq; eauto. congruence.
+        -- intros i j Hij Hno.
+           destruct (Hno a Hinx Hmx) as [N1 _].
+           rewrite cell_replace_neq; auto.
+           apply I2; auto. intros y Hy. apply Hno. apply in_or_app; auto.
+      * apply Nat.eqb_neq in Exa.
+        splits.
+        -- rewrite !replace_at_length. auto.
+        -- intros y Hy Hmy. apply in_app_or in Hy as [Hy|[<-|[]]].
+           ++ assert (y <> x) by (intros ->; auto). assert (y <> b) by (intros ->; congruence).
+              destruct (I1 y Hy Hmy) as [J1 J2].
+              split; [|intros Hya]; rewrite !cell_replace_neq; auto; unfold peq; lia.
+           ++ split.
+              ** eapply cell_replace_eq; eauto. rewrite replace_at_length. congruence.
+              ** intros _. rewrite cell_replace_neq; auto; [|unfold peq; lia].
+                 rewrite (cell_replace_eq _ n); auto; try congruence. rewrite Rxa, Rxb; auto.
+        -- intros i j Hij Hno.
+           destruct (Hno x Hinx Hmx) as [N1 N2].
+           rewrite !cell_replace_neq; auto.
+           apply I2; auto. intros y Hy. apply Hno. apply in_or_app; auto.
+Qed.
+
+(* ---- dm_min under [Separated] ------------------------------------------------------------------------ *)
+Section Sep.
+Variable Fin : L -> Prop.
+Hypothesis HSep : Separated Fin.
+
+Lemma pick_fin {K} (l : list (K * L)) :
+  (forall e, In e l -> Fin (snd e) \/ snd e = linf O) ->
+  match fold_left (pick (lltb O)) l None with
+  | None => l = []
+  | Some e => In e l /\ ((exists x, In x l /\ Fin (snd x)) -> Fin (snd e))
+  end.
+Proof.
+  induction l as [|x l IH] using rev_ind; intros Hall; [reflexivity|].
+  rewrite fold_left_app. simpl.
+  assert (Hall' : forall e, In e l -> Fin (snd e) \/ snd e = linf O)
+    by (intros; apply Hall; apply in_or_app; auto).
+  specialize (IH Hall').
+  assert (Hinx : In x (l ++ [x])) by (apply in_or_app; simpl; auto).
+  destruct (fold_left (pick (lltb O)) l None) as [[ek ev]|]; simpl.
+  - destruct IH as [Hin Hfin]. simpl in Hfin.
+    destruct (lltb O (snd x) ev) eqn:Hx.
+    + split; [apply in_or_app; simpl; auto|].
+      intros (y & Hy & Fy).
+      destruct (Hall x Hinx) as [Fx|Ex]; auto.
+      exfalso. rewrite Ex in Hx.
+      destruct (Hall' _ Hin) as [Fe|Ee]; simpl in *.
+      * rewrite (sep_gt _ HSep _ Fe) in Hx. discriminate.
+      * apply in_app_or in Hy as [Hy|[<-|[]]].
+        -- assert (Fe : Fin ev) by (apply Hfin; eauto). rewrite (sep_gt _ HSep _ Fe) in Hx. discriminate.
+        -- rewrite Ex in Fy. rewrite Ee in Hx. rewrite (sep_gt _ HSep _ Fy) in Hx. discriminate.
+    + split; [apply in_or_app; auto|]. simpl.
+      intros (y & Hy & Fy). apply in_app_or in Hy as [Hy|[<-|[]]]; [apply Hfin; eauto|].
+      destruct (Hall' _ Hin) as [Fe|Ee]; simpl in *; auto.
+      rewrite Ee in Hx. rewrite (sep_lt _ HSep _ Fy) in Hx. discriminate.
+  - subst l. simpl. split; auto. intros (y & [<-|[]] & Fy). auto.
+Qed.
+
+Definition CellsOK (n : nat) (cells : list L) (merged : list bool) : Prop :=
+  length cells = n * (n - 1) / 2 /\
+  forall i j, i < n -> j < n -> i <> j ->
+    (nth i merged true = false -> nth j merged true = false -> Fin (cell O cells i j)) /\
+    (nth i merged true = true \/ nth j merged true = true -> cell O cells i j = linf O).
+
+Lemma dm_min_live n cells merged :
+  CellsOK n cells merged ->
+  (exists i j, i < n /\ j < n /\ i <> j /\ nth i merged true = false /\ nth j merged true = false) ->
+  exists a b d, dm_min O (mkDmat n [] cells) = Some (a, b, d) /\ b < a /\ a < n /\
+    nth a merged true = false /\ nth b merged true = false /\ d = cell O cells a b /\ Fin d.
+Proof.
+  intros [Hlen Hc] (i & j & Hi & Hj & Hij & Hmi & Hmj).
+  set (m := mkDmat n [] cells).
+  assert (Hlenm : length (mcells m) = msize m * (msize m - 1) / 2) by exact Hlen.
+  assert (Hel : forall a b v, In (a, b, v) (dm_indexed m) -> b < a /\ a < n /\ v = cell O cells a b).
+  { intros a b v Hin. destruct (indexed_agrees m a b v Hin) as [Hba Hnth].
+    destruct (indexed_in_range m a b v Hlenm Hin) as [_ Han]. splits; auto.
+    symmetry. unfold cell. apply nth_of_nth_error. exact Hnth. }
+  assert (Hall : forall e, In e (dm_indexed m) -> Fin (snd e) \/ snd e = linf O).
+  { intros [[a b] v] Hin. destruct (Hel a b v Hin) as (Hba & Han & ->). simpl.
+    destruct (Hc a b Han ltac:(lia) ltac:(lia)) as [C1 C2].
+    destruct (nth a merged true) eqn:Ea; [right; auto|].
+    destruct (nth b merged true) eqn:Eb; [right; auto|]. left; auto. }
+  assert (Hex : exists x, In x (dm_indexed m) /\ Fin (snd x)).
+  { assert (forall i j, j < i -> i < n -> nth i merged true = false -> nth j merged true = false ->
+              exists x, In x (dm_indexed m) /\ Fin (snd x)) as W.
+    { intros i' j' Hji Hin Hmi' Hmj'.
+      destruct (indexed_complete m i' j' Hlenm Hji Hin) as (v & Hv). apply nth_error_In in Hv.
+      exists (i', j', v). split; auto. destruct (Hel _ _ _ Hv) as (_ & _ & ->). simpl.
+      apply Hc; auto; lia. }
+    destruct (Nat.lt_ge_cases j i); [eapply (W i j); eauto|eapply (W j i); eauto; lia]. }
+  pose proof (pick_fin (dm_indexed m) Hall) as P. rewrite <- dm_min_pick in P.
+  destruct (dm_min O m) as [[[a b] d]|] eqn:Hmin.
+  - destruct P as [Hin Hfin]. specialize (Hfin Hex). simpl in Hfin.
+    destruct (Hel a b d Hin) as (Hba & Han & Hd).
+    exists a, b, d. splits; auto.
+    + destruct (nth a merged true) eqn:Ea; auto. exfalso.
+      destruct (Hc a b Han ltac:(lia) ltac:(lia)) as [_ C2]. rewrite <- Hd in C2.
+      rewrite C2 in Hfin by auto. pose proof (sep_lt _ HSep _ Hfin). pose proof (sep_gt _ HSep _ Hfin). congruence.
+    + destruct (nth b merged true) eqn:Eb; auto. exfalso.
+      destruct (Hc a b Han ltac:(lia) ltac:(lia)) as [_ C2]. rewrite <- Hd in C2.
+      rewrite C2 in Hfin by auto. pose proof (sep_lt _ HSep _ Hfin). pose proof (sep_gt _ HSep _ Hfin). congruence.
+  - exfalso. destruct Hex as (x & Hx & _). rewrite P in Hx. destruct Hx.
+Qed.
+
+End Sep.
+End Loop.
